@@ -22,7 +22,7 @@ OUTSIDE = ['prismatic joints, side branches (excluded by the property)', 'the bu
 ASSUMPTIONS = ['string -> number conversions of the loader (np.array(strs, dtype=float), float(str), float-array item assignment) map each '
                'generated literal to its symbol', 'summary mode for Exp/Log of composed rotations (C01 contracts)']
 EXPLORER_DEFAULTS = {'quick': dict(prove_timeout_ms=30000, time_budget_s=900, max_paths=60, max_decisions=120),
-                     'thorough': dict(prove_timeout_ms=120000, time_budget_s=3000, max_paths=300, max_decisions=200)}
+                     'thorough': dict(prove_timeout_ms=120000, time_budget_s=1200, max_paths=300, max_decisions=200)}
 TOL = '1e-6'
 
 
